@@ -56,8 +56,8 @@ func buildArmedHist(c *core.Ctx, idx int) *armedHist {
 	if idx%150 == 17 {
 		shape = 8
 	}
-	if idx%20 == 5 {
-		shape = 9
+	if (core.Quick(c) && idx%20 == 5) || (!core.Quick(c) && idx%80 == 5) {
+		shape = 9 // costly (1100-row tables): 60 per quick run, 375 per thorough run
 	}
 	var armed *proto.Stmt
 	switch shape {
